@@ -74,7 +74,7 @@ func execMgrConc(in string) Result {
 	since := func() int64 { return int64(time.Since(start)) }
 
 	var evs []string
-	sawRelease, sawBlocked, fmode := false, false, false
+	sawRelease, sawBlocked, fmode, stragglers := false, false, false, false
 	for round, op := range strings.Split(kv["ops"], ";") {
 		if len(op) < 2 {
 			continue
@@ -131,7 +131,19 @@ func execMgrConc(in string) Result {
 		}
 		closeAt := since()
 		ratelimiter.VerifGrantAll(bm, host)
-		finished.Wait()
+		// every caller polls the registered bucket and is let go within one 50 ms poll.  A caller that
+		// is NOT polling the registered bucket (possible only if the manager handed out more than one
+		// bucket for the host) would wait 1/rate seconds: give up on it after a generous second.
+		allDone := make(chan struct{})
+		go func() { finished.Wait(); close(allDone) }()
+		abandoned := false
+		select {
+		case <-allDone:
+		case <-time.After(time.Second):
+			abandoned = true
+			stragglers = true
+		}
+		snap := ratelimiter.VerifSnapshot(bm)
 
 		var relA, relB []string
 		for w := 0; w <= k; w++ {
@@ -161,12 +173,19 @@ func execMgrConc(in string) Result {
 		if lateStarted {
 			ngets++
 		}
+		if abandoned {
+			// some call may not even have reached getBucket: the count of this round is not compared
+			ngets = snap[host]
+		}
 		evs = append(evs, fmt.Sprintf("EC %s %s %s %s %d %s", coqStr(host), coqIvs(relA), thr, coqIvs(relB), ngets,
-			coqSnap(ratelimiter.VerifSnapshot(bm))))
+			coqSnap(snap)))
 	}
 	tags := []string{"fresh-host-burst"}
 	if fmode {
 		tags = append(tags, "fresh-host-burst+429")
+	}
+	if stragglers {
+		tags = append(tags, "callers-abandoned-after-1s")
 	}
 	return Result{
 		Term:       fmt.Sprintf("MC %s %s %s %s", coqZi(maxB), coqFl(capv), coqFl(rate), coqList(evs)),
